@@ -141,6 +141,14 @@ func init() {
 			}
 			return nil
 		},
+		vrt + "Observed": func(fr *frame, a []value) value {
+			x, ok := a[2].(int)
+			if !ok {
+				panic(engineError{"Observed: the value must be concrete"})
+			}
+			fr.i.recordChoice("observed", a[1].(string), int64(x))
+			return x
+		},
 		// Served(addr): the handler of the server listening on addr (engine only)
 		vrt + "Served": func(fr *frame, a []value) value {
 			addr, _ := a[1].(string)
